@@ -821,8 +821,8 @@ func runCheck(id, tier, only string) int {
 		viols = append(viols, r.Violations...)
 		inconcl = append(inconcl, r.Inconcl...)
 	}
-	// keep logs if something went wrong
-	if len(viols) > 0 || len(inconcl) > 0 {
+	// keep logs if something went wrong (a listed known finding is not that)
+	if len(inconcl) > 0 {
 		keep = true
 	}
 	known := loadKnown()
@@ -863,6 +863,7 @@ func runCheck(id, tier, only string) int {
 			continue
 		}
 		nViol++
+		keep = true
 		rp := writeReplay(id, tier, seed, g.v)
 		replayPaths = append(replayPaths, rp)
 		fmt.Printf("VIOLATION property=%s replay=%s\n", id, rp)
